@@ -429,6 +429,9 @@ pub fn scan_repository_multi(
     let walker = crate::configure_walker(roots, options).build();
 
     let mut file_entries = Vec::new();
+    // Overlapping search roots (nested or repeated) reach the same file once per root;
+    // scan every file at most once.
+    let mut seen_files = std::collections::HashSet::new();
     for entry in walker {
         let Ok(entry) = entry else {
             continue;
@@ -439,6 +442,9 @@ pub fn scan_repository_multi(
         }
 
         let path = entry.path().to_path_buf();
+        if !seen_files.insert(fs::canonicalize(&path).unwrap_or_else(|_| path.clone())) {
+            continue;
+        }
         let relative = roots
             .iter()
             .find_map(|root| path.strip_prefix(root).ok())
@@ -614,6 +620,9 @@ pub fn scan_repository_multi(
             }
             all_renames.append(&mut root_renames);
         }
+        // Overlapping search roots (nested or repeated) find the same node once per root;
+        // schedule every node at most once.
+        dedup_renames(&mut all_renames);
         all_renames
     } else {
         vec![]
@@ -648,6 +657,29 @@ pub fn scan_repository_multi(
         version: "1.0.0".to_string(),
         created_directories: None,
     })
+}
+
+/// Keep the first planned rename of every node. The key is the real location of the containing
+/// directory plus the entry's own name, so `./sub/x` and `sub/x` coincide while a symlink keeps
+/// its own identity.
+fn dedup_renames(renames: &mut Vec<Rename>) {
+    let mut seen_sources = std::collections::HashSet::new();
+    renames.retain(|rename| {
+        let key = rename
+            .path
+            .parent()
+            .and_then(|p| fs::canonicalize(p).ok())
+            .map_or_else(
+                || rename.path.clone(),
+                |dir| {
+                    rename
+                        .path
+                        .file_name()
+                        .map_or_else(|| dir.clone(), |n| dir.join(n))
+                },
+            );
+        seen_sources.insert(key)
+    });
 }
 
 pub fn build_globset(patterns: &[String]) -> Result<Option<GlobSet>> {
@@ -1500,9 +1532,14 @@ pub fn create_simple_plan(
     // Walk the directory
     let builder = configure_walker(&paths, options);
 
+    // Overlapping search roots reach the same file once per root; process it once.
+    let mut seen_files = std::collections::HashSet::new();
     for entry in builder.build() {
         let entry = entry?;
         let path = entry.path();
+        if !seen_files.insert(fs::canonicalize(path).unwrap_or_else(|_| path.to_path_buf())) {
+            continue;
+        }
         let relative_path = path.strip_prefix(&root).unwrap_or(path);
 
         // Skip if doesn't match includes or matches excludes
@@ -1543,7 +1580,7 @@ pub fn create_simple_plan(
     }
 
     // Handle file/directory renames if enabled
-    let renames = process_path_renames(
+    let mut renames = process_path_renames(
         &paths,
         &root,
         pattern,
@@ -1554,6 +1591,7 @@ pub fn create_simple_plan(
         include_globs.as_ref(),
         exclude_globs.as_ref(),
     )?;
+    dedup_renames(&mut renames);
 
     // Create stats
     let mut matches_by_variant = HashMap::new();
